@@ -221,6 +221,13 @@ def run(ck: Check):
         res = run_impl("c14_impl.py", {"jobs": [{"kind": "chains", "chains": corpus}]})[0]
         for rounds in res:
             check_chain(ck, rounds, tally, streams, "corpus")
+        # the witness of c15_plus_refuted is what the real executor does in round 3 of chain 0
+        st = res[0][2]["sticky"] if len(res[0]) == 3 else {}
+        ck.obligation("witness:c15_plus_refuted-log==real-log",
+                      st.get("assigns") == [] and st.get("reassigns") == [[1, 0, 2, 1, 0], [1, 2, 1, 1, 2]]
+                      and st.get("reverted") == 0
+                      and sorted(map(tuple, st.get("init", []))) == [(0, 1, 2), (0, 1, 3), (0, 1, 4), (1, 1, 0), (1, 1, 1)],
+                      json.dumps(st)[:300])
 
     # ---------------- exhaustive: first round x second rounds
     max_m = ck.n(3, 4)
